@@ -5,13 +5,12 @@ from harness.props import C01
 ID = 'C06'
 LEAN_TARGETS = ['Props.C06']
 OBLIGATIONS = [
-    'C06.shortlex_reverse_complement', 'C06.shortlexOrder_mirror_upto8', 'C06.blade_wedge_rc', 'C06.lc_wedge_blade',
+    'C06.shortlex_reverse_complement', 'C06.shortlexOrder_mirror_upto8', 'C06.shortlexOrder_mirror_all', 'C06.shortlexOrder_mirror_index', 'C06.blade_wedge_rc', 'C06.lc_wedge_blade',
     'C06.rc_linear_add', 'C06.rc_linear_smul', 'C06.lc_linear_add', 'C06.lc_linear_smul', 'C06.lc_rc', 'C06.rc_lc',
     'C06.pseudoscalar_sq', 'C06.dual_uses_inverse_of_I', 'C06.rc_vee', 'C06.vee_assoc', 'C06.vee_I_right', 'C06.vee_I_left',
     'C06.vee_grade', 'C06.vee_grade_zero', 'C06.rc_grade',
 ]
-PENDING = ['shortlexOrder mirror law for every n as a statement about Model.shortlexOrder (list-level law proved; executable instance n<=8 by kernel evaluation)',
-           'executable complement sign list = wsign (storage-level bridge)']
+PENDING = ['executable complement sign list = wsign (storage-level bridge for the complement functions): compared with the implementation, not proved']
 RULE = ("default blade order; every signature in {+1,-1,0}^n for small n, random above; integer multivectors (dense/sparse/homogeneous); "
         "non-trivial = non-zero non-scalar operand; distinct = distinct (signature, operands, clause) text")
 ASSUMPTIONS = C01.ASSUMPTIONS
